@@ -37,3 +37,367 @@ V("c05-eq-regroup", "C05", "E", ATT, "(12 + 4 + this.number_of_points * 120)", "
 V("c05-eq-fac", "C05", "E", FAC, "this.preamble.record_length - 12 - 4 - 50", "this.preamble.record_length - 66")
 V("c05-eq-array", "C05", "E", ATT, "attitude_point[this.number_of_points]", "Array(this.number_of_points, attitude_point)",
   more=[(ATT, "from construct import Struct, this", "from construct import Array, Struct, this")])
+
+ARR = "ceos_alos2/array.py"
+XRP = "ceos_alos2/xarray.py"
+IOO = "ceos_alos2/io.py"
+SII = "ceos_alos2/sar_image/__init__.py"
+SIO = "ceos_alos2/sar_image/io.py"
+SMD = "ceos_alos2/sar_image/metadata.py"
+SIG = "ceos_alos2/sar_image/signal_data.py"
+PRO = "ceos_alos2/sar_image/processed_data.py"
+IFD = "ceos_alos2/sar_image/file_descriptor.py"
+CAC = "ceos_alos2/sar_image/caching/__init__.py"
+ENC = "ceos_alos2/sar_image/caching/encoders.py"
+DEC = "ceos_alos2/sar_image/caching/decoders.py"
+CPA = "ceos_alos2/sar_image/caching/path.py"
+CLI = "ceos_alos2/sar_image/cli.py"
+DTY = "ceos_alos2/datatypes.py"
+DCD = "ceos_alos2/decoders.py"
+SUM = "ceos_alos2/summary.py"
+HIE = "ceos_alos2/hierarchy.py"
+TRF = "ceos_alos2/transformers.py"
+DTZ = "ceos_alos2/dicttoolz.py"
+LMD = "ceos_alos2/sar_leader/metadata.py"
+DSU = "ceos_alos2/sar_leader/dataset_summary.py"
+MPR = "ceos_alos2/sar_leader/map_projection.py"
+PPO = "ceos_alos2/sar_leader/platform_position.py"
+RAD = "ceos_alos2/sar_leader/radiometric_data.py"
+VMD = "ceos_alos2/volume_directory/metadata.py"
+VIO = "ceos_alos2/volume_directory/io.py"
+LIO = "ceos_alos2/sar_leader/io.py"
+
+# ---------------------------------------------------------------- C01
+V("c01-little-endian", "C01", "M", ARR, '"IU2": np.dtype(">u2")', '"IU2": np.dtype("<u2")', "raw_dtypes")
+V("c01-swap-components", "C01", "M", ARR, '[("real", ">f4"), ("imag", ">f4")]', '[("imag", ">f4"), ("real", ">f4")]', "raw_dtypes")
+V("c01-view-little", "C01", "M", ARR, 'raw.view(">c8")', 'raw.view("<c8")', "parse_data")
+V("c01-arith-again", "C01", "M", ARR, 'return raw.view(">c8").astype("complex64")', 'return raw["real"] + 1j * raw["imag"]', "parse_data")
+V("c01-720-dropped", "C01", "M", SIO, "offset * record_size + 720 for offset", "offset * record_size for offset", "read_metadata")
+V("c01-721", "C01", "M", SIO, "offset * record_size + 720 for offset", "offset * record_size + 721 for offset", "read_metadata")
+V("c01-stop-not-rebased", "C01", "M", SIO, "    record.data.stop += offset\n", "", "_adjust_offset")
+V("c01-start-rebased-twice", "C01", "M", SIO, "    record.data.start += offset\n", "    record.data.start += offset\n    record.data.start += offset\n", "_adjust_offset")
+V("c01-ranges-swapped", "C01", "M", SMD, '(m["data"]["start"], m["data"]["stop"])', '(m["data"]["stop"], m["data"]["start"])', "transform_metadata")
+V("c01-shape-swapped", "C01", "M", SMD, '''        header["sar_related_data_in_the_record"]["number_of_lines_per_dataset"],
+        header["sar_related_data_in_the_record"]["number_of_data_groups_per_line"],''', '''        header["sar_related_data_in_the_record"]["number_of_data_groups_per_line"],
+        header["sar_related_data_in_the_record"]["number_of_lines_per_dataset"],''', "extract_shape")
+V("c01-seek-no-start", "C01", "M", SIG, '"stop" / Seek(this._.record_start + this._.preamble.record_length)', '"stop" / Seek(this._.preamble.record_length)', "signal")
+V("c01-prefix-shift", "C01", "M", PRO, '"blanks4" / StripNullBytes(Bytes(8))', '"blanks4" / StripNullBytes(Bytes(12))', "processed")
+V("c01-grouping-other-size", "C01", "M", ARR, "groupby_chunks(selected_ranges, chunksize=self.records_per_chunk)", "groupby_chunks(selected_ranges, chunksize=1024)", "grouped by")
+V("c01-upper-from-first", "C01", "M", ARR, "max(map(second, ranges_))", "max(map(first, ranges_))", "compute_chunk_ranges")
+V("c01-relocate-one-side", "C01", "M", ARR, "(min_ - offset, max_ - offset)", "(min_ - offset, max_)", "relocate_ranges")
+V("c01-size-wrong", "C01", "M", ARR, '"size": stop - start', '"size": stop - start - 1', "to_offset_size")
+V("c01-wrong-count-field", "C01", "M", SIO, 'n_records = header["number_of_sar_data_records"]', 'n_records = header["sar_related_data_in_the_record"]["number_of_sar_channels"]', "read_metadata")
+V("c01-url-other-file", ["C01", "C13"], "M", SII, "data=Array(fs=fs, url=path,", 'data=Array(fs=fs, url=mapper.root,', "open_image")
+V("c01-eq-dict-order", "C01", "E", ARR, '''    "C*8": np.dtype([("real", ">f4"), ("imag", ">f4")]),
+    "IU2": np.dtype(">u2"),''', '''    "IU2": np.dtype(">u2"),
+    "C*8": np.dtype([("real", ">f4"), ("imag", ">f4")]),''')
+V("c01-eq-commuted", "C01", "E", SIO, "offset * record_size + 720 for offset", "720 + record_size * offset for offset")
+V("c01-eq-renamed-locals", "C01", "E", ARR, "(min_ - offset, max_ - offset) for min_, max_ in ranges", "(lo - offset, hi - offset) for lo, hi in ranges")
+V("c01-eq-first-last", "C01", "E", ARR, "chunk_number: (min(map(first, ranges_)), max(map(second, ranges_)))", "chunk_number: (min(map(first, ranges_)), max(map(second, ranges_)))  # span")
+
+# ---------------------------------------------------------------- C02
+V("c02-columns-dropped", "C02", "M", ARR, "cons(row_indexer, indexers[1:])", "cons(row_indexer, indexers[2:])", "column")
+V("c02-squeeze-removed", "C02", "M", ARR, "row_indexer = 0 if isinstance(indexers[0], int) else slice(None)", "row_indexer = slice(None)", "C02-X2")
+V("c02-vectorized", "C02", "M", XRP, "indexing.IndexingSupport.BASIC", "indexing.IndexingSupport.VECTORIZED", "VECTORIZED")
+V("c02-empty-guard-removed", "C02", "M", ARR, '''            if data_:
+                data = np.stack(data_, axis=0)
+            else:
+                data = np.empty((0, *self.shape[1:]), dtype=self.dtype)''', '''            data = np.stack(data_, axis=0)''', "empty")
+V("c02-key-not-forwarded", "C02", "M", XRP, "return self.array[key]", "return self.array[key[:1]]", "_raw_indexing_method")
+V("c02-eq-outer", "C02", "E", XRP, "indexing.IndexingSupport.BASIC", "indexing.IndexingSupport.OUTER")
+V("c02-eq-star-tuple", "C02", "E", ARR, "new_indexers = tuple(cons(row_indexer, indexers[1:]))", "new_indexers = (row_indexer, *indexers[1:])")
+
+# ---------------------------------------------------------------- C03 / C04 / C16 layouts and tables
+V("c03-swap-fields", "C03", "M", PRO, '''    "slant_range_to_first_pixel" / Metadata(Int32ub, units="m"),
+    "slant_range_to_mid_pixel" / Metadata(Int32ub, units="m"),''', '''    "slant_range_to_mid_pixel" / Metadata(Int32ub, units="m"),
+    "slant_range_to_first_pixel" / Metadata(Int32ub, units="m"),''', "slant_range")
+V("c03-factor", "C03", "M", PRO, '"line_heading" / Metadata(Factor(Int32ub, 1e-6), units="deg")', '"line_heading" / Metadata(Factor(Int32ub, 1e-3), units="deg")', "line_heading")
+V("c03-unit", "C03", "M", SIG, '"prf" / Metadata(Int32ub, units="mHz")', '"prf" / Metadata(Int32ub, units="Hz")', "prf")
+V("c03-width-compensated", "C03", "M", SIG, '''    "scan_id" / Int32ub,
+    "onboard_range_compressed_flag" / Flag(2),''', '''    "scan_id" / Int16ub,
+    "onboard_range_compressed_flag" / Flag(4),''', "scan_id", more=[(SIG, "from construct import Bytes, Computed, Int32ub, Int64ub, Seek, Struct, Tell, this", "from construct import Bytes, Computed, Int16ub, Int32ub, Int64ub, Seek, Struct, Tell, this")])
+V("c03-enum-table", "C03", "M", "ceos_alos2/sar_image/enums.py", "pulse_polarization = Enum(Int16ub, horizontal=0, vertical=1)", "pulse_polarization = Enum(Int16ub, horizontal=1, vertical=0)", "polarization")
+V("c03-factor-div", ["C03", "C04"], "M", DTY, "        return obj * self.factor", "        return obj / self.factor", "Factor")
+V("c03-known-attr-dropped", "C03", "M", SMD, '        "scan_id",\n', "", "scan_id")
+V("c03-rows-rename-lost", "C03", "M", SMD, '"sar_image_data_line_number": "rows",', '"sar_image_data_line_numbr": "rows",', "rows")
+V("c03-ignored-typo", "C03", "E", SMD, '        "preamble",\n        "record_start",', '        "preamble",\n        "record_start",\n        "no_such_field",')
+V("c03-override-lost", ["C03", "C17"], "M", SMD, '"sensor_acquisition_date_microseconds": "datetime64[ns]",', '"sensor_acquisition_date_microsecond": "datetime64[ns]",', "sensor_acquisition_date_microseconds")
+V("c03-isnan-restored", ["C03", "C20"], "M", SMD, "[0, v] if v != -1 and not math.isnan(v) else []", "[0, v] if not math.isnan(v) else []", "maximum_data_range_of_pixel")
+V("c03-eq-spare-split", "C03", "E", PRO, '"blanks1" / StripNullBytes(Bytes(20)),', '"blanks1" / StripNullBytes(Bytes(12)),\n    "blanks5" / StripNullBytes(Bytes(8)),')
+V("c03-eq-hoist", "C03", "E", PRO, '''processed_data_record = Struct(''', '''_ydms = Struct(
+    "year" / Int32ub,
+    "day_of_year" / Int32ub,
+    "milliseconds" / Int32ub,
+)
+
+processed_data_record = Struct(''', more=[(PRO, '''    / DatetimeYdms(
+        Struct(
+            "year" / Int32ub,
+            "day_of_year" / Int32ub,
+            "milliseconds" / Int32ub,
+        )
+    ),''', "    / DatetimeYdms(_ydms),")])
+
+V("c04-swap", "C04", "M", DSU, '''    "geodetic_latitude" / Metadata(AsciiFloat(16), units="deg"),
+    "geodetic_longitude" / Metadata(AsciiFloat(16), units="deg"),''', '''    "geodetic_longitude" / Metadata(AsciiFloat(16), units="deg"),
+    "geodetic_latitude" / Metadata(AsciiFloat(16), units="deg"),''', "geodetic")
+V("c04-width", "C04", "M", DSU, '"nominal_radar_wavelength" / Metadata(AsciiFloat(16), units="m"),\n    "motion_compensation_indicator" / motion_compensation,\n    "range_pulse_code" / PaddedString(16),',
+  '"nominal_radar_wavelength" / Metadata(AsciiFloat(14), units="m"),\n    "motion_compensation_indicator" / motion_compensation,\n    "range_pulse_code" / PaddedString(18),', "nominal_radar_wavelength")
+V("c04-scale", "C04", "M", DSU, 'Factor(AsciiFloat(16), 1e24)', 'Factor(AsciiFloat(16), 1e21)', "earth_mass")
+V("c04-ascii-int", "C04", "M", DTY, "        return int(stripped)", "        return abs(int(stripped))", "AsciiInteger")
+V("c04-complex-swapped", "C04", "M", DTY, "return obj.real + 1j * obj.imaginary", "return obj.imaginary + 1j * obj.real", "AsciiComplex")
+V("c04-complex-halves", ["C04", "C05"], "M", DTY, '"real" / AsciiFloat(n_bytes // 2),', '"real" / AsciiFloat(n_bytes // 4),', "radiometric")
+V("c04-translation-swapped", "C04", "M", MPR, '''        "map_projection_to_pixels": "projected_to_image",
+        "pixels_to_map_projection": "image_to_projected",''', '''        "map_projection_to_pixels": "image_to_projected",
+        "pixels_to_map_projection": "projected_to_image",''', "projected_to_image")
+V("c04-corner-order", "C04", "M", MPR, 'coordinate = ["top_left", "top_right", "bottom_right", "bottom_left"]', 'coordinate = ["top_left", "top_right", "bottom_left", "bottom_right"]', "corner")
+V("c04-dims", "C04", "M", "ceos_alos2/sar_leader/facility_related_data.py", '"conversion_from_pixel_to_geographic": curry(transform_group, dim="high_precision_coeffs")', '"conversion_from_pixel_to_geographic": curry(transform_group, dim="mid_precision_coeffs")', "image_to_geographic")
+V("c04-bool-dropped", "C04", "M", PPO, '"occurrence_flag_of_a_leap_second": bool,', '"occurrence_flag_of_a_leap_second": int,', "leap_second")
+V("c04-record-order", ["C04", "C05"], "M", LST, '''    "attitude" / attitude_record,
+    "radiometric_data" / radiometric_data_record,''', '''    "radiometric_data" / radiometric_data_record,
+    "attitude" / attitude_record,''', "attitude")
+V("c04-matrix-partition", "C04", "M", RAD, "matrix = list(map(list, partition(2, values)))", "matrix = list(map(list, partition(4, values)))", "distortion_matrix")
+V("c04-projection-map", "C04", "M", MPR, '"lcc": "national_system_projection",', '"lcc": "ups_projection",', "projection")
+V("c04-eq-reorder-defs", "C04", "E", DSU, 'flag = Enum(PaddedString(4), yes="YES", no="NO", on="ON", off="OFF")\nweighting_functions = Enum(PaddedString(32), rectangle="1")', 'weighting_functions = Enum(PaddedString(32), rectangle="1")\nflag = Enum(PaddedString(4), yes="YES", no="NO", on="ON", off="OFF")')
+V("c04-eq-lambda-bool", "C04", "E", PPO, '"occurrence_flag_of_a_leap_second": bool,', '"occurrence_flag_of_a_leap_second": lambda v: bool(v),')
+
+V("c16-width", "C16", "M", VOL, '"logical_volume_generating_agency" / PaddedString(8),\n    "logical_volume_generating_facility" / PaddedString(12),', '"logical_volume_generating_agency" / PaddedString(12),\n    "logical_volume_generating_facility" / PaddedString(8),', "agency")
+V("c16-rename-order", "C16", "M", VMD, '''    postprocessors = {
+        "creation_datetime": normalize_datetime,
+    }''', '''    postprocessors = {
+        "logical_volume_creation_datetime": normalize_datetime,
+    }''', "creation_datetime")
+V("c16-ignored-more", "C16", "M", VMD, '    ignored = ["preamble", "ascii_ebcdic_flag", "blanks", "physical_tape_id"]', '    ignored = ["preamble", "ascii_ebcdic_flag", "blanks", "physical_tape_id", "scene_id"]', "scene_id")
+V("c16-collision", "C16", "M", VMD, '"location_and_datetime_of_product_creation": "product_creation",', '"location_and_datetime_of_product_creation": "logical_volume_id",', "logical_volume_id")
+V("c16-record-size", ["C16", "C05"], "M", VOL, '"spare" / PaddedString(92),', '"spare" / PaddedString(90),', "volume_descriptor")
+
+# ---------------------------------------------------------------- C06
+V("c06-option-dropped", ["C06", "C07"], "M", SII, "header, metadata = read_metadata(f, records_per_chunk)", "header, metadata = read_metadata(f)", "records_per_chunk")
+V("c06-persisted", ["C06", "C07", "C08"], "M", ENC, '            "type_code": obj.type_code,\n', '            "type_code": obj.type_code,\n            "records_per_chunk": obj.records_per_chunk,\n', "records_per_chunk")
+V("c06-normalize-ge", "C06", "E", ARR, "if chunksize in (None, -1) or chunksize > dim_size:", "if chunksize in (None, -1) or chunksize >= dim_size:")
+V("c06-normalize-wrong", "C06", "M", ARR, "if chunksize in (None, -1) or chunksize > dim_size:", "if chunksize in (None, -1) or chunksize < dim_size:", "normalize_chunksize")
+V("c06-normalize-bypassed", "C06", "M", ARR, "self.records_per_chunk = normalize_chunksize(self.records_per_chunk, self.shape[0])", "self.records_per_chunk = int(self.records_per_chunk)", "C06-Q2")
+V("c06-eq-min", "C06", "E", ARR, '''    if chunksize in (None, -1) or chunksize > dim_size:
+        return dim_size
+
+    return chunksize''', '''    if chunksize in (None, -1):
+        return dim_size
+
+    return min(chunksize, dim_size)''')
+V("c06-default-rpc", ["C06", "C07", "C10"], "M", IOO, "records_per_chunk=records_per_chunk,\n", "records_per_chunk=1024,\n", "records_per_chunk")
+
+# ---------------------------------------------------------------- C07
+V("c07-cache-unguarded", "C07", "M", SII, '''    if use_cache:
+        try:
+            return caching.read_cache(mapper, path, records_per_chunk=records_per_chunk)
+        except CachingError:
+            pass
+''', '''    try:
+        return caching.read_cache(mapper, path, records_per_chunk=records_per_chunk)
+    except CachingError:
+        pass
+''', "use_cache")
+V("c07-create-unguarded", ["C07", "C10"], "M", SII, "    if create_cache:\n        caching.create_cache(mapper, path, group)", "    caching.create_cache(mapper, path, group)", "create_cache")
+V("c07-suffix", "C07", "M", CLI, 'target = cache_root / f"{path}.index"', 'target = cache_root / f"{path}.idx"', "cli")
+V("c07-suffix-remote", "C07", "M", CPA, '    return f"{path}.index"', '    return f"{path}.cache"', "adjacent")
+V("c07-handler-reraises", "C07", "M", SII, "        except CachingError:\n            pass", "        except CachingError:\n            raise", "C07-G4")
+V("c07-not-returned", "C07", "M", SII, "            return caching.read_cache(mapper, path, records_per_chunk=records_per_chunk)", "            cached = caching.read_cache(mapper, path, records_per_chunk=records_per_chunk)", "C07-G4")
+V("c07-miss-keyerror", "C07", "M", CAC, '    raise CachingError(f"no cache found for {path}")', '    raise KeyError(f"no cache found for {path}")', "read_cache")
+V("c07-use-cache-flipped", ["C07", "C10"], "M", IOO, "use_cache=use_cache,", "use_cache=not use_cache,", "use_cache")
+V("c07-tag-renamed", ["C07", "C08"], "M", ENC, '"__type__": "variable",', '"__type__": "var",', "variable")
+V("c07-eq-inverted-guard", "C07", "E", SII, '''    if use_cache:
+        try:
+            return caching.read_cache(mapper, path, records_per_chunk=records_per_chunk)
+        except CachingError:
+            pass
+''', '''    if not use_cache:
+        pass
+    else:
+        try:
+            return caching.read_cache(mapper, path, records_per_chunk=records_per_chunk)
+        except CachingError:
+            pass
+''')
+V("c07-eq-positional", "C07", "E", SII, "return caching.read_cache(mapper, path, records_per_chunk=records_per_chunk)", "return caching.read_cache(mapper, path, records_per_chunk)")
+V("c07-eq-broader-handler", ["C07", "C09", "C18"], "E", SII, "        except CachingError:\n            pass", "        except (CachingError, ValueError):\n            pass")
+
+# ---------------------------------------------------------------- C08
+V("c08-units-key", "C08", "M", DEC, "encoding['units']", "encoding['unit']", "unit")
+V("c08-float-cast", "C08", "M", ENC, 'encoded = (obj - reference).astype("int64").tolist()', 'encoded = (obj - reference).astype("float64").tolist()', "cast")
+V("c08-object-hook", "C08", "M", CAC, "json.loads(cache, object_hook=postprocess)", "json.loads(cache)", "object_hook")
+V("c08-M-decoder-removed", "C08", "M", DEC, 'decoders = {"M": decode_datetime}', "decoders = {}", "decoder")
+V("c08-coercion-removed", ["C08", "C07"], "M", ENC, "    obj = np.asarray(obj)\n\n", "", "K5")
+V("c08-preprocess-skipped", "C08", "M", CAC, "return json.dumps(preprocess(encoded))", "return json.dumps(encoded)", "preprocess")
+V("c08-tuple-branch", "C08", "M", ENC, '''    elif isinstance(data, tuple):
+        return {"__type__": "tuple", "data": list(map(preprocess, data))}''', '''    elif isinstance(data, tuple):
+        return list(map(preprocess, data))''', "tuple")
+V("c08-reference-not-added", "C08", "M", DEC, "    return reference + offsets", "    return offsets.astype(obj[\"dtype\"])", "reference")
+V("c08-shape-from-other-key", ["C08", "C07"], "M", DEC, '    shape = encoded["shape"]', '    shape = encoded["byte_ranges"]', "shape")
+V("c08-eq-key-order", "C08", "E", ENC, '''        "__type__": "variable",
+        "dims": var.dims,
+        "data": encoded_data,''', '''        "__type__": "variable",
+        "data": encoded_data,
+        "dims": var.dims,''')
+
+# ---------------------------------------------------------------- C09
+V("c09-try-removed", "C09", "M", CAC, '''    try:
+        partially_decoded = json.loads(cache, object_hook=postprocess)
+    except ValueError as e:
+        raise CachingError("invalid or incomplete cache file") from e
+''', '''    partially_decoded = json.loads(cache, object_hook=postprocess)
+''', "json.loads")
+V("c09-wrong-class", "C09", "M", CAC, "    except ValueError as e:\n        raise CachingError", "    except KeyError as e:\n        raise CachingError", "json.loads")
+V("c09-reraise-other", "C09", "M", CAC, '        raise CachingError("invalid or incomplete cache file") from e', '        raise RuntimeError("invalid or incomplete cache file") from e', "json.loads")
+V("c09-write-if-missing", "C09", "M", CAC, "    local.write_text(encoded)", "    if not local.exists():\n        local.write_text(encoded)", "create_cache")
+V("c09-mkdir-no-parents", "C09", "M", CAC, "local.parent.mkdir(exist_ok=True, parents=True)", "local.parent.mkdir(exist_ok=True)", "C09-X2")
+V("c09-swallow-in-decode", "C09", "M", CAC, '        raise CachingError("invalid or incomplete cache file") from e', '        return None', "decode")
+V("c09-eq-jsondecodeerror", "C09", "E", CAC, "    except ValueError as e:", "    except json.JSONDecodeError as e:")
+V("c09-eq-handler-in-read-cache", "C09", "E", CAC, '''    try:
+        partially_decoded = json.loads(cache, object_hook=postprocess)
+    except ValueError as e:
+        raise CachingError("invalid or incomplete cache file") from e
+''', '''    partially_decoded = json.loads(cache, object_hook=postprocess)
+''', more=[(CAC, '''    if local.is_file():
+        return decode(local.read_text(), records_per_chunk=records_per_chunk)
+
+    if remote in mapper:
+        return decode(mapper[remote].decode(), records_per_chunk=records_per_chunk)
+''', '''    try:
+        if local.is_file():
+            return decode(local.read_text(), records_per_chunk=records_per_chunk)
+
+        if remote in mapper:
+            return decode(mapper[remote].decode(), records_per_chunk=records_per_chunk)
+    except ValueError as e:
+        raise CachingError("unusable cache") from e
+''')])
+
+# ---------------------------------------------------------------- C10
+V("c10-lru-cache", "C10", "M", SII, "def open_image(mapper, path, *,", "@functools.lru_cache(maxsize=None)\ndef open_image(mapper, path, *,", "memo", more=[(SII, "from ceos_alos2.array import Array", "import functools\n\nfrom ceos_alos2.array import Array")])
+V("c10-module-cache", "C10", "M", IOO, "def open(path, *,", "_opened = {}\n\n\ndef open(path, *,", "module", more=[(IOO, "    mapper = fsspec.get_mapper(path, **storage_options)\n", "    mapper = fsspec.get_mapper(path, **storage_options)\n    _opened[path] = mapper\n")])
+V("c10-options-popped", "C10", "M", XRP, "    root = io.open(path, **backend_options)", "    chunks = backend_options.pop(\"chunks\", chunks)\n    root = io.open(path, **backend_options)", "backend_options")
+V("c10-storage-mutated", "C10", "M", IOO, "    mapper = fsspec.get_mapper(path, **storage_options)\n", "    storage_options.setdefault(\"anon\", True)\n    mapper = fsspec.get_mapper(path, **storage_options)\n", "storage_options")
+V("c10-write-next-to-image", "C10", "M", CAC, "    local.write_text(encoded)", "    local.write_text(encoded)\n    mapper[remote_cache_location(mapper.root, path)] = encoded.encode()", "create_cache")
+V("c10-cache-root-cwd", "C10", "M", CPA, "cache_root = platformdirs.user_cache_path(project_name)", "cache_root = pathlib.Path(\".\") / project_name", "cache", more=[(CPA, "import hashlib\n", "import hashlib\nimport pathlib\n")])
+V("c10-copy-removed", "C10", "M", HIE, "        new_value = copy.copy(value)", "        new_value = value", "_adjust_item")
+V("c10-eq-copy-options", "C10", "E", XRP, "    root = io.open(path, **backend_options)", "    options = dict(backend_options)\n    root = io.open(path, **options)")
+
+# ---------------------------------------------------------------- C11
+V("c11-open-in-loop", "C11", "M", ARR, '''        with self.fs.open(self.url, mode="rb") as f:
+            data_ = []
+            for chunk_info, ranges in tasks:
+                chunk = read_chunk(f, **chunk_info)''', '''        if True:
+            data_ = []
+            for chunk_info, ranges in tasks:
+                with self.fs.open(self.url, mode="rb") as f:
+                    chunk = read_chunk(f, **chunk_info)''', "open")
+V("c11-unbounded-read", "C11", "M", ARR, "    return f.read(size)", "    return f.read()[:size]", "read")
+V("c11-read-whole-file-meta", "C11", "M", SIO, "parse_chunk(f.read(chunksize * record_size), record_size) for chunksize in chunksizes", "parse_chunk(f.read()[: chunksize * record_size], record_size) for chunksize in chunksizes", "read")
+V("c11-tasks-filtered", "C11", "M", ARR, "tasks = [relocate_ranges(info, ranges) for info, ranges in merged]", "tasks = [relocate_ranges(info, [r]) for info, ranges in merged for r in ranges]", "tasks")
+V("c11-extra-io", "C11", "M", ARR, "        selected_ranges = compute_selected_ranges(self.byte_ranges, indexers[0])", "        self.fs.cat(\"summary.txt\")\n        selected_ranges = compute_selected_ranges(self.byte_ranges, indexers[0])", "I/O")
+V("c11-seek-in-meta", "C11", "M", SIO, "    header = read_file_descriptor(f)\n", "    header = read_file_descriptor(f)\n    f.seek(720)\n", "seek")
+V("c11-no-seek", "C11", "M", ARR, "    f.seek(offset)\n\n", "", "read_chunk")
+
+# ---------------------------------------------------------------- C12
+V("c12-wrap-reverted", "C12", "M", XRP, "self.dtype = np.dtype(array.dtype)", "self.dtype = array.dtype", "dtype")
+V("c12-nested-added", ["C12", "C03"], "M", PRO, '    "look_angle_of_nadir" / Metadata(Factor(Int32ub, 1e-6), units="deg"),\n    "azimuth_squint_angle" / Metadata(Factor(Int32ub, 1e-6), units="deg"),',
+  '    "angles"\n    / Struct(\n        "look_angle_of_nadir" / Metadata(Factor(Int32ub, 1e-6), units="deg"),\n        "azimuth_squint_angle" / Metadata(Factor(Int32ub, 1e-6), units="deg"),\n    ),', "angles")
+V("c12-adv-dtype", ["C12", "C01"], "M", SMD, '"IU2": np.dtype("uint16"),', '"IU2": np.dtype("int16"),', "IU2")
+V("c12-eq-upstream", "C12", "E", XRP, "self.dtype = np.dtype(array.dtype)", "self.dtype = array.dtype", more=[(ARR, "        sizes = np.array([stop - start for start, stop in self.byte_ranges])", "        self.dtype = np.dtype(self.dtype)\n        sizes = np.array([stop - start for start, stop in self.byte_ranges])")])
+
+# ---------------------------------------------------------------- C13
+V("c13-roles-swapped", "C13", "M", SUM, "    volume_directory, leader, *imagery, trailer = filenames", "    leader, volume_directory, *imagery, trailer = filenames", "categorize")
+V("c13-child-renamed", "C13", "M", IOO, '"metadata": sar_leader,', '"leader": sar_leader,', "children")
+V("c13-images-dropped", "C13", "M", IOO, '            filenames["sar_imagery"],', '            filenames["sar_imagery"][1:],', "image")
+V("c13-attrs-dropped", "C13", "M", IOO, "attrs=volume_directory.attrs | attrs)", "attrs=attrs)", "attrs")
+V("c13-scan-ignored", "C13", "M", SII, "    parts = [polarization, scan_number]", "    parts = [polarization]", "scan")
+V("c13-leader-uncovered", "C13", "M", LMD, '        "radiometric_data": transform_radiometric_data,\n', "", "radiometric_data")
+V("c13-data-before-coords", "C13", "M", SMD, '    group.attrs |= header_attrs | {"coordinates": list(group.variables)}', '    group.attrs |= header_attrs | {"coordinates": []}', "coordinates")
+V("c13-wrong-role", "C13", "M", IOO, 'open_sar_leader(mapper, filenames["sar_leader"])', 'open_sar_leader(mapper, filenames["sar_trailer"])', "sar_leader")
+V("c13-eq-renamed-local", "C13", "E", SII, '''    polarization = info.get("polarization")
+    parts = [polarization, scan_number]''', '''    pol = info.get("polarization")
+    parts = [pol, scan_number]''')
+
+# ---------------------------------------------------------------- C14
+V("c14-match", "C14", "M", SUM, "    match = entry_re.fullmatch(line)", "    match = entry_re.match(line)", "parse_line")
+V("c14-split-n", "C14", "M", SUM, "    lines = content.splitlines()", '    lines = content.split("\\n")', "C14-S4")
+V("c14-raise-first", "C14", "M", SUM, "        except ValueError as e:\n            errors[lineno] = e", "        except ValueError as e:\n            errors[lineno] = e\n            break", "early")
+V("c14-single-error", "C14", "M", SUM, "        new_errors = [with_lineno(error, lineno) for lineno, error in errors.items()]", "        new_errors = [with_lineno(error, lineno) for lineno, error in list(errors.items())[:1]]", "group")
+V("c14-lineno-dropped", "C14", "M", SUM, '    e.args = (f"line {lineno:02d}: {message}",) + e.args[1:]', '    e.args = (f"{message}",) + e.args[1:]', "with_lineno")
+V("c14-regex-greedy-section", "C14", "M", SUM, "(?P<section>[A-Za-z]{3})_", "(?P<section>[A-Za-z]{2,3})_", "entry_re")
+V("c14-section-missing", "C14", "M", SUM, '        "lbi": transform_label_info,\n', "", "section")
+V("c14-eq-rename", "C14", "E", SUM, "    for lineno, line in enumerate(lines):\n        try:\n            parsed = parse_line(line)\n            entries.append(parsed)\n        except ValueError as e:\n            errors[lineno] = e",
+  "    for number, text in enumerate(lines):\n        try:\n            parsed = parse_line(text)\n            entries.append(parsed)\n        except ValueError as err:\n            errors[number] = err")
+
+# ---------------------------------------------------------------- C15
+V("c15-class-shrunk", "C15", "M", DCD, "(?P<observation_direction>[LR])", "(?P<observation_direction>[L])", "observation_direction")
+V("c15-fullmatch-match", "C15", "M", DCD, "match = product_id_re.fullmatch(product_id)", "match = product_id_re.match(product_id)", "decode_product_id")
+V("c15-fname-width", "C15", "M", DCD, "-(?P<product_id>[A-Z0-9._]{10})", "-(?P<product_id>[A-Z0-9._]{9})", "product_id")
+V("c15-lookup-none", "C15", "M", DCD, '''    value = mapping.get(code)
+    if value is None:
+        raise ValueError(f"invalid code {code!r}")
+
+    return value''', '''    return mapping.get(code)''', "lookup")
+V("c15-level-dropped", "C15", "M", DCD, r"(?P<processing_level>1\.0|1\.1|1\.5|3\.1)", r"(?P<processing_level>1\.0|1\.1|1\.5)", "processing_level")
+V("c15-fname-dot", "C15", "M", DCD, "[A-Z0-9._]{10}", "[A-Z0-9_]{10}", "product_id")
+V("c15-upml-reverted", "C15", "M", DCD, "(?P<map_projection>[UPML_])", "(?P<map_projection>[UL_])", "map_projection")
+V("c15-eq-alt-order", "C15", "E", DCD, r"(?P<processing_level>1\.0|1\.1|1\.5|3\.1)", r"(?P<processing_level>3\.1|1\.5|1\.1|1\.0)")
+V("c15-eq-comment", "C15", "E", DCD, "    (?P<orbit_direction>[AD])\n", "    (?P<orbit_direction>[AD])  # ascending / descending\n")
+
+# ---------------------------------------------------------------- C17
+V("c17-minus-one-removed", "C17", "M", DTY, 'days=obj["day_of_year"] - 1, milliseconds=obj["milliseconds"]', 'days=obj["day_of_year"], milliseconds=obj["milliseconds"]', "DatetimeYdms")
+V("c17-override-ms", ["C17", "C03"], "M", SMD, '"sensor_acquisition_date_microseconds": "datetime64[ns]",', '"sensor_acquisition_date_microseconds": "datetime64[ms]",', "sensor_acquisition_date_microseconds")
+V("c17-anchor-constant", ["C17", "C03"], "M", SIG, "DatetimeYdus(Int64ub, this.sensor_acquisition_date)", "DatetimeYdus(Int64ub, datetime.datetime(2014, 1, 1))", "anchor", more=[(SIG, "from construct import", "import datetime\n\nfrom construct import")])
+V("c17-attitude-seconds", "C17", "M", ATT, '        "timedelta64[ns]"\n', '        "timedelta64[s]"\n', "attitude")
+V("c17-format", "C17", "M", TRF, '"%Y%m%d%H%M%S%f"', '"%Y%m%d%H%M%S"', "normalize_datetime")
+V("c17-eq-commuted", "C17", "E", DTY, 'days=obj["day_of_year"] - 1, milliseconds=obj["milliseconds"]', 'days=-1 + obj["day_of_year"], milliseconds=obj["milliseconds"]')
+
+# ---------------------------------------------------------------- C18
+V("c18-handler-removed", "C18", "M", LIO, '''    try:
+        data = mapper[path]
+    except KeyError as e:
+        raise FileNotFoundError(f"Cannot open {path}") from e
+''', '''    data = mapper[path]
+''', "mapper")
+V("c18-raise-keyerror", "C18", "M", VIO, '        raise FileNotFoundError(f"Cannot open {path}") from e', '        raise KeyError(f"Cannot open {path}") from e', "mapper")
+V("c18-size-check-removed", "C18", "M", SIO, '''    if n_elements * element_size != len(content):
+        raise ValueError(
+            f"sizes mismatch: chunksize is {n_elements * element_size}"
+            f" but got {len(content)} bytes"
+        )
+''', "", "parse_chunk")
+V("c18-swallow-parse", "C18", "M", SII, '''    with fs.open(path, mode="rb") as f:
+        header, metadata = read_metadata(f, records_per_chunk)
+''', '''    with fs.open(path, mode="rb") as f:
+        try:
+            header, metadata = read_metadata(f, records_per_chunk)
+        except Exception:
+            header, metadata = {}, []
+''', "except")
+V("c18-dim-renamed", ["C18", "C03"], "M", SII, 'dims=["rows", "columns"],', 'dims=["lines", "columns"],', "rows")
+V("c18-eq-oserror", "C18", "E", LIO, '        raise FileNotFoundError(f"Cannot open {path}") from e', '        raise OSError(f"Cannot open {path}") from e')
+
+# ---------------------------------------------------------------- C19
+V("c19-handle-cached", "C19", "M", ARR, '''        with self.fs.open(self.url, mode="rb") as f:''', '''        if getattr(self, "_f", None) is None:
+            self._f = self.fs.open(self.url, mode="rb")
+        with self._f as f:''', "handle")
+V("c19-threading-lock", "C19", "M", XRP, "        lock = SerializableLock()", "        lock = threading.Lock()", "lock", more=[(XRP, "import numpy as np\n", "import threading\n\nimport numpy as np\n")])
+V("c19-memo-last-chunk", "C19", "M", ARR, "                chunk = read_chunk(f, **chunk_info)\n", "                chunk = read_chunk(f, **chunk_info)\n                self._last = chunk\n", "shared")
+V("c19-handle-leaked", "C19", "M", ARR, "                chunk = read_chunk(f, **chunk_info)\n", "                chunk = read_chunk(f, **chunk_info)\n                HANDLES.append(f)\n", "handle", more=[(ARR, "raw_dtypes = {", "HANDLES = []\n\nraw_dtypes = {")])
+V("c19-eq-lock-removed", "C19", "E", XRP, "        with self.lock:\n            return self.array[key]", "        return self.array[key]")
+
+# ---------------------------------------------------------------- C20
+V("c20-padding-known-attr", ["C20", "C03"], "M", SMD, '        "number_of_overlap_lines_with_adjacent_bursts",\n    }', '        "number_of_overlap_lines_with_adjacent_bursts",\n        "reserved5",\n    }', "reserved5")
+V("c20-remove-spares-dropped", ["C20", "C04"], "M", RAD, "        curry(dissoc, ignored),\n        curry(remove_spares),\n        curry(apply_to_items, transformers),", "        curry(dissoc, ignored),\n        curry(apply_to_items, transformers),", "blanks")
+V("c20-blank-int-zero", ["C20", "C04"], "M", DTY, "        if not stripped:\n            return -1\n", "        if not stripped:\n            return 0\n", "AsciiInteger")
+V("c20-blank-float-zero", ["C20", "C04"], "M", DTY, '            stripped = "nan"', '            stripped = "0"', "AsciiFloat")
+V("c20-predicate-narrowed", "C20", "M", TRF, 'if not k.startswith(("spare", "blanks")):', 'if not k.startswith(("spare",)):', "blanks")
+V("c20-bool-on-nullable", ["C20", "C04"], "M", DSU, '        "scene_center_time": normalize_datetime,\n', '        "scene_center_time": normalize_datetime,\n        "yaw_steering_mode_flag": bool,\n', "yaw_steering_mode_flag")
+V("c20-vol-spare-surfaces", ["C20", "C16"], "M", VMD, '        "spare",\n        "local_use_segment",', '        "local_use_segment",', "spare")
+V("c20-eq-blank-check", "C20", "E", DTY, '''        stripped = obj.strip()
+        if not stripped:
+            return -1
+        return int(stripped)''', '''        stripped = obj.strip()
+        if stripped == "":
+            return -1
+        return int(stripped)''')
